@@ -182,3 +182,57 @@ _t(
     entry=("tq.m1", "f"),
     kept=["/t7/f"],
 )
+
+# ---------------------------------------------------------------- T8: the same code in two accepted modules (copy), one kept function with a
+# tracked variable, one without
+_T8 = '''
+RATE = 0
+
+
+@dds.data_function("/t8/base")
+def base():
+    tick.hit("base")
+    return ("b", 1)
+
+
+@dds.data_function("/t8/scaled")
+def scaled():
+    tick.hit("scaled")
+    return ("s", base(), RATE)
+'''
+_t(
+    "T8",
+    [PKG, ("tq.m1", {"a": HEAD + _T8}), ("tq.m3", {"a": HEAD + _T8})],
+    leaves=[("tq.m1", "RATE", "int", True), ("tq.m3", "RATE", "int", True)],
+    entry=("tq.m1", "scaled"),
+    kept=["/t8/base", "/t8/scaled"],
+)
+
+
+# ---------------------------------------------------------------- name-clash module (C03): another program of the same process that uses the
+# template's variable names for functions and its function names for variables
+
+
+def clash_source(t):
+    import re
+
+    fun_names, var_names = [], []
+    for (_mod, var, _typ, _cone) in t.leaves:
+        if var not in fun_names:
+            fun_names.append(var)
+    for modname, variants in t.modules.items():
+        for m in re.finditer(r"^def (\w+)\(", variants["a"], re.M):
+            if m.group(1) not in var_names and m.group(1) not in fun_names:
+                var_names.append(m.group(1))
+    src = HEAD + "\n"
+    for i, v in enumerate(var_names):
+        src += "%s = %d\n" % (v, 100 + i)
+    for fn in fun_names:
+        src += "\n\ndef %s():\n    return (\"clash\", %r)\n" % (fn, fn)
+    body = ", ".join(["%s()" % fn for fn in fun_names] + var_names)
+    src += "\n\n@dds.data_function(\"/clash/p\")\ndef clash_p():\n    return (%s,)\n" % body
+    return src
+
+
+for _name, _tpl in list(T.items()):
+    _tpl.modules["tq.zclash"] = {"a": clash_source(_tpl)}
